@@ -10,15 +10,24 @@ tie        : three comparisons per generated expression (real sqlframe Column + 
                S  meaning     df.select(expr).collect()               ==  denote e   on every row of the value pool
 search     : S is the property itself; a failing S is a KNOWN-FINDING only when A and B hold (the model predicts
              the implementation's output) and every violated hypothesis reported by the driver is listed.
+literals   : every plain Python value of a tree (operands of operators incl. the reflected forms, isin values, between
+             bounds, when/otherwise values, lit(...)) goes through the model of `Column._lit` / `Column(v)` /
+             `functions.lit` (Impl/C05Lit.lean over the regenerated Gen.ColumnLit): comparison A includes the *text* of
+             every number literal, S its value.  DOUBLE values are exact decimals in the Lean model and in the Python
+             mirror; the implementation's doubles are compared with the stated tolerance REL_TOL, and only on trees
+             whose observable result does not depend on IEEE rounding (`stable`).
 """
 from __future__ import annotations
 
+import decimal
 import itertools
 import json
+import math
 import os
 import random
 import sys
 import typing as t
+from fractions import Fraction
 
 import vlib
 from vlib import Ctx, log, lval, plain
@@ -26,7 +35,7 @@ from vlib import Ctx, log, lval, plain
 ID = "C05"
 LEVEL = "proof"
 MODULES = ["SqlframeModel.Codec.C05", "SqlframeModel.Props.C05"]
-GEN = ["ColumnOps"]
+GEN = ["ColumnOps", "ColumnLit"]
 SOURCES = [
     "SqlframeModel/Props/C05.lean",
     "SqlframeModel/Lemmas/C05Meaning.lean",
@@ -36,13 +45,23 @@ SOURCES = [
     "SqlframeModel/Lemmas/C05Fns.lean",
     "SqlframeModel/Impl/C05Column.lean",
     "SqlframeModel/Impl/C05Engine.lean",
+    "SqlframeModel/Impl/C05Lit.lean",
+    "SqlframeModel/Impl/C05Value.lean",
+    "SqlframeModel/Lemmas/C05Lit.lean",
 ]
 
 # the value pool of the property's quantifier
-COLS: t.Dict[str, str] = {"x": "int", "y": "int", "s": "str", "u": "str", "p": "bool", "q": "bool"}
-POOL: t.Dict[str, t.List[t.Any]] = {"int": [None, 0, -1, 2], "str": [None, "", "a"], "bool": [None, True, False]}
+COLS: t.Dict[str, str] = {"x": "int", "y": "int", "s": "str", "u": "str", "p": "bool", "q": "bool", "d": "dbl", "f": "dbl"}
+POOL: t.Dict[str, t.List[t.Any]] = {"int": [None, 0, -1, 2], "str": [None, "", "a"], "bool": [None, True, False], "dbl": [None, 0.0, -2.0, 4.0, 0.5]}
 INT_LITS = [0, 1, 2, -1, 3]
 STR_LITS = ["", "a", "b", "ab"]
+# literals that only ever stand where the value is compared / returned as it is (no LIKE / regexp pattern, no arithmetic)
+STR_LITS_PLAIN = ["a'b", 'a"b', "a\\b", "é", " a", "A", "a%", "NULL", "1"]
+INT_LITS_PLAIN = [10, -7, 2**31, -(2**31) - 1, 10**12, 2**63 - 1]
+# Python floats in every spelling `repr` has: positional, exponent with a negative / positive exponent, long mantissas
+FLOAT_LITS = [0.25, 1.5, -0.5, 2.0, 10.1, 0.0, 4.0, 0.0001, 0.000123, 123456.789, 2.5e-07, 1.234e-05, 1e-05, 1e-09, -1e-07, 3e-07, 1.5e-08, 1e16, 1.5e17, 1e15, 1234567.125, 0.1]
+# tolerance of every comparison between an implementation DOUBLE and the exact decimal of the specification
+REL_TOL = 1e-9
 LIKE_PATS = ["a", "a%", "%a", "%", "_", "", "_b"]
 RLIKE_PATS = ["a", "b", "ab"]
 ARITH = ["add", "sub", "mul", "mod"]
@@ -69,19 +88,134 @@ def fields(e: t.Any) -> dict:
     return {} if isinstance(e, str) else e[ctor(e)]
 
 
-def strip(e: t.Any) -> t.Any:
-    """tree -> the driver's JSON (python values -> Lean `Val` encoding, decorations removed)"""
+# ---- numbers: a DOUBLE is the exact decimal Python's repr() shows (what the user wrote) --------------------------
+
+
+def float_digits(v: float) -> t.Tuple[bool, t.List[int], int]:
+    """(negative, shortest round-trip digits d1..dn, pt) with |v| = 0.d1..dn * 10**pt — what repr(v) is made of"""
+    neg = math.copysign(1.0, v) < 0
+    sign, digits, exp = decimal.Decimal(repr(abs(v))).as_tuple()
+    ds = list(digits)
+    while len(ds) > 1 and ds[-1] == 0:
+        ds.pop()
+        exp += 1
+    while len(ds) > 1 and ds[0] == 0:
+        ds.pop(0)
+    if ds == [0]:
+        return neg, [0], 1
+    return neg, ds, len(ds) + exp
+
+
+def frac_of(v: float) -> Fraction:
+    return Fraction(decimal.Decimal(repr(v)))
+
+
+def dec_pair(q: Fraction) -> t.List[int]:
+    """normalised [m, e] with q = m * 10**e and m not a multiple of 10 (zero: [0, 0]) — Lean's `Dbl.mk`"""
+    if q == 0:
+        return [0, 0]
+    e = 0
+    while q.denominator != 1:
+        q *= 10
+        e -= 1
+        if e < -2000:
+            raise ValueError("not a decimal fraction")
+    m = q.numerator
+    while m % 10 == 0:
+        m //= 10
+        e += 1
+    return [m, e]
+
+
+def pyval(v: t.Any) -> t.Any:
+    """python value -> Lean `PyVal`"""
+    if v is None:
+        return "none"
+    if isinstance(v, bool):
+        return {"bool": {"b": v}}
+    if isinstance(v, int):
+        return {"int": {"i": v}}
+    if isinstance(v, float):
+        if math.isnan(v):
+            return {"float": {"f": "nan"}}
+        if math.isinf(v):
+            return {"float": {"f": {"inf": {"neg": v < 0}}}}
+        neg, ds, pt = float_digits(v)
+        return {"float": {"f": {"fin": {"neg": neg, "ds": ds, "pt": pt}}}}
+    if isinstance(v, str):
+        return {"str": {"s": v}}
+    raise TypeError(f"unsupported python value {v!r}")
+
+
+def cval(v: t.Any) -> t.Any:
+    """python value of a pool -> Lean `CVal`"""
+    if isinstance(v, float):
+        m, e = dec_pair(frac_of(v))
+        return {"dbl": {"d": {"fin": {"m": m, "e": e}}}}
+    return lval(v)
+
+
+def enc_tree(e: t.Any) -> t.Any:
+    """a tree as strict JSON: the non-finite floats as {"$float": "nan" | "inf" | "-inf"}"""
+    if isinstance(e, float) and (math.isnan(e) or math.isinf(e)):
+        return {"$float": repr(e)}
+    if isinstance(e, dict):
+        return {k: enc_tree(v) for k, v in e.items()}
+    if isinstance(e, list):
+        return [enc_tree(v) for v in e]
+    return e
+
+
+def dec_tree(e: t.Any) -> t.Any:
+    if isinstance(e, dict):
+        if set(e) == {"$float"}:
+            return float(e["$float"])
+        return {k: dec_tree(v) for k, v in e.items()}
+    if isinstance(e, list):
+        return [dec_tree(v) for v in e]
+    return e
+
+
+def site_of(parent: str, key: str, pf: dict) -> t.Any:
+    """the `Site` of a plain Python operand standing at `key` of a `parent` node"""
+    if parent in ("arith", "cmp", "logic", "eqNullSafe") and key == "b":
+        return "binary"
+    if parent == "between" and key in ("lo", "hi"):
+        return "between"
+    if parent == "strFn" and key == "b":
+        return {"strFn": {"f": pf["f"]}}
+    if parent == "substr" and key in ("st", "len"):
+        return "substr"
+    if parent == "when" and key == "v":
+        return "when"
+    if parent == "otherwise" and key == "d":
+        return "otherwise"
+    raise ValueError(f"a plain Python value cannot stand at {parent}.{key}")
+
+
+def strip(e: t.Any, site: t.Any = None) -> t.Any:
+    """tree -> the driver's JSON (python values -> Lean `PyVal`, a `_raw` literal -> `raw` tagged with its position)"""
     if isinstance(e, str):
         return e
     c = ctor(e)
+    if c == "lit":
+        v = pyval(e[c]["v"])
+        if e.get("_raw"):
+            if site is None:
+                raise ValueError("a plain Python value at the root")
+            return {"raw": {"s": site, "v": v}}
+        return {"lit": {"v": v}}
     out = {}
     for k, v in e[c].items():
         if k in ("a", "b", "c", "lo", "hi", "st", "len", "rest", "d") or (k == "v" and c == "when"):
-            out[k] = strip(v)
+            sub_site = None
+            if ctor(v) == "lit" and not isinstance(v, str) and v.get("_raw"):
+                sub_site = site_of(c, k, e[c])
+            out[k] = strip(v, sub_site)
         elif k == "v":
-            out[k] = lval(v)
+            out[k] = pyval(v)
         elif k == "vs":
-            out[k] = [lval(x) for x in v]
+            out[k] = [pyval(x) for x in v]
         else:
             out[k] = v
     return {c: out}
@@ -129,6 +263,33 @@ def kinds_of(e: t.Any, acc: t.Dict[str, int]) -> None:
         kinds_of(ch, acc)
 
 
+def lit_type(v: t.Any) -> str:
+    return "bool" if isinstance(v, bool) else "int" if isinstance(v, int) else "str" if isinstance(v, str) else "dbl" if isinstance(v, float) else "int"
+
+
+def has_dbl(e: t.Any) -> bool:
+    c = ctor(e)
+    f = fields(e)
+    if c == "col":
+        return COLS[f["n"]] == "dbl"
+    if c == "lit":
+        return isinstance(f["v"], float)
+    if c in ("arithL", "cmpL") and isinstance(f["v"], float):
+        return True
+    if c == "isin" and any(isinstance(x, float) for x in f["vs"]):
+        return True
+    if c == "cast" and f["ty"] == "double":
+        return True
+    return any(has_dbl(ch) for _, ch in children(e))
+
+
+def py_repr(v: t.Any) -> str:
+    """Python source text of a value"""
+    if isinstance(v, float) and (math.isnan(v) or math.isinf(v)):
+        return f"float({repr(v)!r})"
+    return repr(v)
+
+
 def type_of(e: t.Any) -> str:
     c = ctor(e)
     f = fields(e)
@@ -136,15 +297,19 @@ def type_of(e: t.Any) -> str:
         return COLS[f["n"]]
     if c == "lit":
         v = f["v"]
-        return e.get("_ty") or ("bool" if isinstance(v, bool) else "int" if isinstance(v, int) else "str" if isinstance(v, str) else "int")
-    if c in ("arith", "arithL", "neg"):
-        return "int"
+        return e.get("_ty") or lit_type(v)
+    if c == "arith":
+        return "dbl" if "dbl" in (type_of(f["a"]), type_of(f["b"])) else "int"
+    if c == "arithL":
+        return "dbl" if isinstance(f["v"], float) or type_of(f["b"]) == "dbl" else "int"
+    if c == "neg":
+        return type_of(f["a"])
     if c in ("cmp", "cmpL", "logic", "logicL", "not", "isNull", "isNotNull", "eqNullSafe", "isin", "between", "like", "strFn"):
         return "bool"
     if c == "substr":
         return "str"
     if c == "cast":
-        return "str" if f["ty"] == "string" else "int"
+        return {"string": "str", "bigint": "int", "double": "dbl"}[f["ty"]]
     if c == "alias":
         return type_of(f["a"])
     if c == "when":
@@ -167,17 +332,17 @@ def show(e: t.Any) -> str:
 
     def operand(x: t.Any) -> str:
         if ctor(x) == "lit" and x.get("_raw"):
-            return repr(fields(x)["v"])
+            return py_repr(fields(x)["v"])
         return show(x)
 
     if c == "col":
         return f"col({f['n']!r})"
     if c == "lit":
-        return f"lit({f['v']!r})"
+        return f"lit({py_repr(f['v'])})"
     if c in ("arith", "cmp", "logic"):
         return f"({show(f['a'])} {PY_OP[f['op']]} {operand(f['b'])})"
     if c in ("arithL", "cmpL", "logicL"):
-        return f"({f['v']!r} {PY_OP[f['op']]} {show(f['b'])})"
+        return f"({py_repr(f['v'])} {PY_OP[f['op']]} {show(f['b'])})"
     if c == "neg":
         return f"(-{show(f['a'])})"
     if c == "not":
@@ -187,7 +352,7 @@ def show(e: t.Any) -> str:
     if c == "eqNullSafe":
         return f"{show(f['a'])}.eqNullSafe({operand(f['b'])})"
     if c == "isin":
-        return f"{show(f['a'])}.isin({', '.join(map(repr, f['vs'])) if not e.get('_list') else repr(f['vs'])})"
+        return f"{show(f['a'])}.isin({', '.join(map(py_repr, f['vs'])) if not e.get('_list') else '[' + ', '.join(map(py_repr, f['vs'])) + ']'})"
     if c == "between":
         return f"{show(f['a'])}.between({operand(f['lo'])}, {operand(f['hi'])})"
     if c == "like":
@@ -226,14 +391,26 @@ class TreeGen:
         cs = [c for c in self.cols if COLS[c] == ty]
         return N("col", n=self.rng.choice(cs)) if cs else None
 
-    def lit(self, ty: str, raw_ok: bool = True, null_ok: bool = True) -> dict:
+    def flt(self) -> float:
+        """a Python float: from the fixed family, or with random digits and a random exponent (every spelling of repr)"""
+        r = self.rng
+        if r.random() < 0.6:
+            return r.choice(FLOAT_LITS)
+        nd = r.choice([1, 1, 2, 2, 3, 4, 6, 9, 12, 15, 17])
+        m = r.randrange(10 ** (nd - 1), 10**nd)
+        ex = r.choice([-12, -9, -8, -7, -6, -5, -4, -3, -2, -1, 0, 1, 2, 5, 9, 14, 15, 16, 17]) - (nd - 1)
+        return float(f"{'-' if r.random() < 0.25 else ''}{m}e{ex}")
+
+    def lit(self, ty: str, raw_ok: bool = True, null_ok: bool = True, plain_ok: bool = False) -> dict:
         r = self.rng
         if null_ok and r.random() < 0.06:
             v: t.Any = None
         elif ty == "int":
-            v = r.choice(INT_LITS)
+            v = r.choice(INT_LITS_PLAIN) if plain_ok and r.random() < 0.3 else r.choice(INT_LITS)
         elif ty == "str":
-            v = r.choice(STR_LITS)
+            v = r.choice(STR_LITS_PLAIN) if plain_ok and r.random() < 0.4 else r.choice(STR_LITS)
+        elif ty == "dbl":
+            v = r.choice([0, 1, 2, -1]) if r.random() < 0.15 else self.flt()
         else:
             v = r.choice([True, False])
         e = N("lit", v=v)
@@ -254,10 +431,10 @@ class TreeGen:
             return N("alias", a=e, n=self.rng.choice(ALIASES))
         return e
 
-    def operand(self, ty: str, d: int) -> dict:
+    def operand(self, ty: str, d: int, plain_ok: bool = False) -> dict:
         """a right-hand operand: sometimes a plain Python value"""
-        if self.rng.random() < 0.2:
-            return self.lit(ty, raw_ok=True)
+        if self.rng.random() < (0.35 if ty == "dbl" else 0.2):
+            return self.lit(ty, raw_ok=True, plain_ok=plain_ok)
         return self.expr(ty, d)
 
     def expr(self, ty: str, d: int) -> dict:
@@ -289,6 +466,25 @@ class TreeGen:
             if k < 0.95:
                 return N("cast", a=self.expr("int", d - 1), ty="bigint")
             return N("cast", a=self.expr("bool", d - 1), ty="bigint")
+        if ty == "dbl":
+            k = r.random()
+            if k < 0.45:
+                op = r.choice(["add", "sub", "mul"])
+                if r.random() < 0.75:
+                    return N("arith", op=op, a=self.expr("dbl", d - 1), b=self.operand(r.choice(["dbl", "dbl", "int"]), d - 1))
+                return N("arith", op=op, a=self.expr("int", d - 1), b=self.operand("dbl", d - 1))
+            if k < 0.65:
+                op = r.choice(["add", "sub", "mul"])
+                if r.random() < 0.7:
+                    return N("arithL", op=op, v=self.flt(), b=self.expr(r.choice(["dbl", "dbl", "int"]), d - 1))
+                return N("arithL", op=op, v=r.choice(INT_LITS), b=self.expr("dbl", d - 1))
+            if k < 0.75:
+                return N("neg", a=self.expr("dbl", d - 1))
+            if k < 0.9:
+                return self.when("dbl", d)
+            if k < 0.95:
+                return N("cast", a=self.expr("int", d - 1), ty="double")
+            return self.leaf("dbl")
         if ty == "str":
             k = r.random()
             if k < 0.3:
@@ -301,11 +497,11 @@ class TreeGen:
             return self.leaf("str")
         # bool
         k = r.random()
-        oty = r.choice(["int", "int", "str", "bool", "bool"])
+        oty = r.choice(["int", "int", "str", "bool", "bool", "dbl", "dbl"])
         if k < 0.2:
-            return N("cmp", op=r.choice(CMP), a=self.expr(oty, d - 1), b=self.operand(oty, d - 1))
+            return N("cmp", op=r.choice(CMP), a=self.expr(oty, d - 1), b=self.operand(oty, d - 1, plain_ok=True))
         if k < 0.27:
-            v = self.lit(oty, null_ok=False)
+            v = self.lit(oty, null_ok=False, plain_ok=True)
             return N("cmpL", op=r.choice(CMP), v=fields(v)["v"], b=self.expr(oty, d - 1))
         if k < 0.42:
             return N("logic", op=r.choice(["and", "or"]), a=self.expr("bool", d - 1), b=self.operand("bool", d - 1))
@@ -318,9 +514,9 @@ class TreeGen:
         if k < 0.69:
             return N("isNotNull", a=self.expr(oty, d - 1))
         if k < 0.75:
-            return N("eqNullSafe", a=self.expr(oty, d - 1), b=self.operand(oty, d - 1))
+            return N("eqNullSafe", a=self.expr(oty, d - 1), b=self.operand(oty, d - 1, plain_ok=True))
         if k < 0.81:
-            vs = [fields(self.lit(oty))["v"] for _ in range(r.randint(1, 3))]
+            vs = [fields(self.lit(oty, plain_ok=True))["v"] for _ in range(r.randint(1, 3))]
             e = N("isin", a=self.expr(oty, d - 1), vs=vs)
             if r.random() < 0.4:
                 e["_list"] = True
@@ -349,6 +545,10 @@ class TreeGen:
 
 
 def valid(e: t.Any) -> bool:
+    return grammar_ok(e) and stable(e)
+
+
+def grammar_ok(e: t.Any) -> bool:
     """inside the engine model's grammar: the lower bound of BETWEEN is not a bare (reflected) AND — its `AND`
     would be read as BETWEEN's own keyword, a re-tokenisation the operator-precedence model does not cover"""
     if ctor(e) == "between":
@@ -357,7 +557,7 @@ def valid(e: t.Any) -> bool:
             lo = fields(lo)["a"]
         if ctor(lo) == "logicL" and fields(lo)["op"] == "and":
             return False
-    return all(valid(ch) for _, ch in children(e))
+    return all(grammar_ok(ch) for _, ch in children(e))
 
 
 def gen_case(rng: random.Random, max_depth: int = 4) -> dict:
@@ -365,7 +565,7 @@ def gen_case(rng: random.Random, max_depth: int = 4) -> dict:
         ncols = rng.choice([2, 3, 3, 4])
         cols = rng.sample(list(COLS), ncols)
         g = TreeGen(rng, cols)
-        ty = rng.choice(["bool", "bool", "bool", "int", "str"])
+        ty = rng.choice(["bool", "bool", "bool", "bool", "int", "str", "dbl", "dbl"])
         d = rng.choice([2, 3, 3, 4, 4]) if max_depth >= 4 else max_depth
         e = g.expr(ty, d)
         if ctor(e) != "alias" and rng.random() < 0.25:
@@ -413,7 +613,91 @@ def base_cases() -> t.List[dict]:
         N("logic", op="or", a=N("logic", op="and", a=p, b=q), b=N("isNull", a=p)),
         N("cmp", op="eq", a=N("neg", a=x), b=N("arith", op="mod", a=y, b=raw(2))),
     ]
+    # DOUBLE columns and Python floats: every operator / method once
+    d, f2 = N("col", n="d"), N("col", n="f")
+    for op in ("add", "sub", "mul"):
+        out += [N("arith", op=op, a=d, b=f2), N("arith", op=op, a=d, b=raw(0.25)), N("arith", op=op, a=d, b=raw(2)), N("arith", op=op, a=x, b=raw(2.5e-07)), N("arithL", op=op, v=1.5, b=d), N("arithL", op=op, v=1e-07, b=x), N("arithL", op=op, v=3, b=d)]
+    for op in CMP:
+        out += [N("cmp", op=op, a=d, b=f2), N("cmp", op=op, a=d, b=raw(0.5)), N("cmp", op=op, a=d, b=raw(0)), N("cmp", op=op, a=x, b=raw(0.5)), N("cmpL", op=op, v=3e-07, b=d), N("cmpL", op=op, v=2, b=d)]
+    out += [N("neg", a=d), N("neg", a=N("lit", v=2.5e-07)), N("isNull", a=d), N("isNotNull", a=N("arith", op="add", a=d, b=f2)), N("eqNullSafe", a=d, b=f2), N("eqNullSafe", a=d, b=raw(0.5))]
+    out += [N("isin", a=d, vs=[0.5, 4.0]), N("isin", a=d, vs=[1e-07, None]), N("isin", a=d, vs=[4, 0]), N("between", a=d, lo=raw(-1e-09), hi=raw(1e-09)), N("between", a=d, lo=f2, hi=raw(4))]
+    out += [N("when", c=p, v=raw(1e-07), rest=N("otherwise", d=raw(-1e-07))), N("when", c=N("cmp", op="ge", a=d, b=raw(0)), v=d, rest=N("otherwise", d=N("neg", a=d))), N("cast", a=x, ty="double"), N("alias", a=N("arith", op="mul", a=d, b=raw(2.5e-07)), n="r")]
+    out += [N("cmp", op="lt", a=N("arith", op="mul", a=N("arith", op="add", a=d, b=raw(1.234e-05)), b=raw(2)), b=N("arithL", op="sub", v=1e16, b=f2))]
+    # NaN is written as a cast (and `lit(nan)` carries the decorator's alias)
+    nan = float("nan")
+    out += [N("lit", v=nan), N("isNull", a=N("lit", v=nan)), N("when", c=p, v=raw(nan), rest="noElse"), N("eqNullSafe", a=d, b=raw(nan)), N("cmp", op="lt", a=d, b=raw(nan)), N("cmp", op="eq", a=N("lit", v=nan), b=raw(nan))]
+    # ±inf: a cast of 'Infinity' to DOUBLE as a plain operand (Column._lit); still the *string* 'inf' through
+    # functions.lit — lit(inf), when(c, inf), .otherwise(inf) (H_floatLitFinite)
+    inf = float("inf")
+    out += [N("cmp", op="lt", a=d, b=raw(inf)), N("cmpL", op="gt", v=inf, b=d), N("cmpL", op="le", v=-inf, b=d), N("isin", a=d, vs=[inf, 4.0]), N("between", a=d, lo=raw(-inf), hi=raw(inf))]
+    out += [N("arith", op="mul", a=d, b=raw(inf)), N("arith", op="add", a=d, b=raw(-inf)), N("arithL", op="sub", v=inf, b=d), N("eqNullSafe", a=d, b=raw(inf)), N("arithL", op="mul", v=-inf, b=x)]
+    out += [N("lit", v=inf), N("lit", v=-inf), N("when", c=p, v=raw(inf), rest="noElse"), N("cmp", op="gt", a=N("lit", v=inf), b=d), N("arith", op="mul", a=N("lit", v=inf), b=raw(2))]
+    out += [N("when", c=p, v=raw(1.5), rest=N("otherwise", d=raw(inf))), N("neg", a=N("lit", v=inf)), N("isNull", a=N("lit", v=-inf))]
     return [{"e": e, "origin": "base"} for e in out]
+
+
+def entry_points(v: t.Any, ty: str) -> t.List[t.Any]:
+    """the plain Python value `v` at every place a literal enters an expression (each reaches `Column._lit`,
+    `Column(v)` or `functions.lit` by a different route); the subject is a column of its type"""
+    c = N("col", n={"int": "x", "str": "s", "bool": "p", "dbl": "d"}[ty])
+    p = N("col", n="p")
+
+    def raw() -> dict:
+        e = N("lit", v=v)
+        e["_raw"] = True
+        e["_ty"] = ty
+        return e
+
+    out = [
+        N("lit", v=v),
+        N("cmp", op="eq", a=c, b=raw()),
+        N("cmp", op="lt", a=c, b=N("lit", v=v)),
+        N("cmpL", op="ge", v=v, b=c),
+        N("eqNullSafe", a=c, b=raw()),
+        N("isin", a=c, vs=[v]),
+        N("between", a=c, lo=raw(), hi=raw()),
+        N("when", c=p, v=raw(), rest=N("otherwise", d=raw())),
+        N("when", c=N("isNull", a=c), v=N("lit", v=v), rest=N("otherwise", d=c)),
+    ]
+    e = N("isin", a=c, vs=[v, None])
+    e["_list"] = True
+    out.append(e)
+    if ty in ("int", "dbl"):
+        out += [N("arith", op="mul", a=c, b=raw()), N("arithL", op="sub", v=v, b=c), N("neg", a=N("lit", v=v))]
+    if ty == "dbl":
+        x = N("col", n="x")
+        out += [N("arithL", op="mul", v=v, b=x), N("cmp", op="gt", a=x, b=raw())]
+    if ty == "bool":
+        out += [N("logic", op="and", a=c, b=raw()), N("logicL", op="or", v=v, b=c)]
+    if ty == "str":
+        out += [N("strFn", f="startswith", a=c, b=raw())]
+    return out
+
+
+def literal_cases(rng: random.Random, thorough: bool) -> t.List[dict]:
+    """targeted family: every kind of plain Python value, in every spelling, at every entry point"""
+    g = TreeGen(rng, list(COLS))
+    floats = list(FLOAT_LITS) + [-v for v in FLOAT_LITS[:6]] + [5e-324, 1.7976931348623157e308, 2.2250738585072014e-308, 0.30000000000000004, 1e22, 1e23, 123456789012345678.0]
+    floats += [g.flt() for _ in range(60 if thorough else 14)]
+    vals: t.List[t.Tuple[t.Any, str]] = [(v, "dbl") for v in floats]
+    vals += [(v, "int") for v in INT_LITS + INT_LITS_PLAIN]
+    vals += [(v, "str") for v in STR_LITS + STR_LITS_PLAIN]
+    vals += [(True, "bool"), (False, "bool")]
+    vals += [(None, ty) for ty in ("int", "str", "bool", "dbl")]
+    out = []
+    for v, ty in vals:
+        eps = entry_points(v, ty)
+        big = isinstance(v, float) and v != 0 and not (1e-30 < abs(v) < 1e30)
+        for e in eps:
+            c = ctor(e)
+            # the domain excludes overflow: extreme magnitudes only where nothing is computed with them
+            if big and c in ("arith", "arithL"):
+                continue
+            if isinstance(v, int) and not isinstance(v, bool) and abs(v) >= 2**31 and c in ("arith", "arithL", "neg"):
+                continue
+            if grammar_ok(e) and stable(e):
+                out.append({"e": e, "origin": "literal"})
+    return out
 
 
 # ------------------------------------------------------------------------------------------------
@@ -442,10 +726,12 @@ def sql_lit(v: t.Any) -> str:
         return "TRUE" if v else "FALSE"
     if isinstance(v, int):
         return str(v) if v >= 0 else f"({v})"
+    if isinstance(v, float):
+        return f"CAST({repr(v)!r} AS DOUBLE)"
     return "'" + str(v).replace("'", "''") + "'"
 
 
-SQL_TY = {"int": "BIGINT", "str": "VARCHAR", "bool": "BOOLEAN"}
+SQL_TY = {"int": "BIGINT", "str": "VARCHAR", "bool": "BOOLEAN", "dbl": "DOUBLE"}
 
 
 def pool_table(cols: t.List[str]) -> str:
@@ -600,12 +886,11 @@ def sexp(node: t.Any) -> t.Any:
             return ["raw", node.sql()]
         return ["Column", node.name]
     if isinstance(node, exp.Literal):
+        if extra({"this", "is_string"}) or not isinstance(node.this, str):
+            return ["raw", node.sql()]
         if node.is_string:
             return ["Literal", {"s": node.this}]
-        try:
-            return ["Literal", int(node.this)]
-        except ValueError:
-            return ["raw", node.sql()]
+        return ["Number", node.this]  # the literal's text as it is: its spelling is part of the structure
     if isinstance(node, exp.Boolean):
         return ["Boolean", bool(node.this)]
     if isinstance(node, exp.Null):
@@ -656,7 +941,7 @@ def sexp(node: t.Any) -> t.Any:
     if isinstance(node, exp.Alias):
         # the `@meta` decorator's automatic display alias (`when__<identifier>__`); its spelling is C10's business
         name = node.alias
-        return ["Alias", sexp(node.this), "<auto>" if name.startswith("when__") and name.endswith("__") else name]
+        return ["Alias", sexp(node.this), "<auto>" if name.startswith(("when__", "lit__")) and name.endswith("__") else name]
     return ["raw", node.sql()]
 
 
@@ -670,7 +955,9 @@ def render_full(s: t.Any) -> str:
     if h == "Column":
         return f'"{s[1]}"'
     if h == "Literal":
-        return sql_lit(s[1]["s"] if isinstance(s[1], dict) else s[1])
+        return sql_lit(s[1]["s"])
+    if h == "Number":
+        return f"({s[1]})" if s[1].startswith("-") else s[1]
     if h == "Boolean":
         return "TRUE" if s[1] else "FALSE"
     if h == "Null":
@@ -715,7 +1002,11 @@ def render_full(s: t.Any) -> str:
 
 def err_kind(ex: BaseException) -> str:
     n = type(ex).__name__
-    return {"ParserException": "syntax", "CatalogException": "function"}.get(n, n)
+    # DuckDB types a positional float literal as DECIMAL: arithmetic between two such literals can leave the range of
+    # DECIMAL(18, s) ("Casting value … to type DECIMAL(18,9) failed: value is out of range") — an engine-defined overflow
+    if n == "ConversionException" and "out of range" in str(ex) and "DECIMAL" in str(ex):
+        return "overflow"
+    return {"ParserException": "syntax", "CatalogException": "function", "BinderException": "binder", "OutOfRangeException": "overflow"}.get(n, n)
 
 
 def row_key(vals: t.Sequence[t.Any]) -> str:
@@ -723,10 +1014,69 @@ def row_key(vals: t.Sequence[t.Any]) -> str:
 
 
 def plain_or_repr(v: t.Any) -> t.Any:
+    """a returned value in the comparison encoding: DOUBLE / DECIMAL results as {"f": float | "nan" | "inf" | "-inf"}"""
+    if isinstance(v, decimal.Decimal):
+        v = float(v)
+    if isinstance(v, float):
+        if math.isnan(v):
+            return {"f": "nan"}
+        if math.isinf(v):
+            return {"f": "-inf" if v < 0 else "inf"}
+        return {"f": v}
     try:
         return plain(v)
     except TypeError:
         return {"repr": repr(v)}
+
+
+def as_number(a: t.Any) -> t.Any:
+    """{"f": x} (implementation) or {"d": [m, e]} (exact decimal of model / specification) -> Fraction | 'nan' | 'inf' | '-inf'"""
+    if isinstance(a, dict) and "f" in a:
+        return a["f"] if isinstance(a["f"], str) else Fraction(a["f"])
+    if isinstance(a, dict) and "d" in a:
+        return a["d"] if isinstance(a["d"], str) else Fraction(a["d"][0]) * Fraction(10) ** a["d"][1]
+    return None
+
+
+def val_eq(a: t.Any, b: t.Any, tol: float = REL_TOL) -> bool:
+    """equality of two encoded values; two DOUBLEs agree within the relative tolerance `tol` (no absolute slack:
+    a tiny value must not be confused with zero)"""
+    x, y = as_number(a), as_number(b)
+    # a BIGINT value and a DOUBLE value are compared numerically: SQL unifies the branch types of a CASE (and of IN /
+    # BETWEEN operands) to DOUBLE, so `when(p, 0).otherwise(d)` returns 0.0 where the specification says 0
+    exact_int = False
+    if x is None and isinstance(a, int) and not isinstance(a, bool) and y is not None:
+        x, exact_int = Fraction(a), True  # an integer has no rounding: the DOUBLE must be exactly it
+    if y is None and isinstance(b, int) and not isinstance(b, bool) and x is not None:
+        y, exact_int = Fraction(b), True
+    if x is None or y is None:
+        return a == b
+    if isinstance(x, str) or isinstance(y, str):
+        return x == y
+    if x == y:
+        return True
+    if exact_int:
+        return False
+    if tol == 0:
+        # no arithmetic was involved: the two are the same DOUBLE (the decimal of the specification is the shortest
+        # spelling of exactly one double)
+        try:
+            return float(x) == float(y)
+        except OverflowError:
+            return False
+    return abs(x - y) <= Fraction(tol) * max(abs(x), abs(y))
+
+
+def computes(e: t.Any) -> bool:
+    """does the tree do arithmetic (whose DOUBLE results the engine rounds)?  If not, values only travel from literals
+    and columns to the result and are compared exactly"""
+    if ctor(e) in ("arith", "arithL", "neg", "cast"):
+        return True
+    return any(computes(ch) for _, ch in children(e))
+
+
+def rows_eq(a: t.Dict[str, t.Any], b: t.Dict[str, t.Any], tol: float = REL_TOL) -> bool:
+    return a.keys() == b.keys() and all(val_eq(v, b[k], tol) for k, v in a.items())
 
 
 def run_impl(case: dict) -> dict:
@@ -789,7 +1139,7 @@ def keyed(case: dict, values: t.List[t.Any]) -> t.Dict[str, t.Any]:
 
 
 def case_to_lean(i: int, case: dict) -> dict:
-    return {"case": i, "e": strip(case["e"]), "cols": [{"n": c, "pool": [lval(v) for v in POOL[COLS[c]]]} for c in case["cols"]]}
+    return {"case": i, "e": strip(case["e"]), "cols": [{"n": c, "pool": [cval(v) for v in POOL[COLS[c]]]} for c in case["cols"]]}
 
 
 def prepare(case: dict) -> dict:
@@ -809,9 +1159,11 @@ def evaluate(cases: t.List[dict]) -> t.List[dict]:
         impl = run_impl(c)
         spec = keyed(c, o["spec"])
         model = keyed(c, o["model"])
-        r: t.Dict[str, t.Any] = {"case": c, "impl": impl, "driver": {k: o[k] for k in ("build", "engine", "fnsOK", "wellParen", "scope")}}
+        r: t.Dict[str, t.Any] = {"case": c, "impl": impl, "driver": {k: o.get(k) for k in ("build", "engine", "fnsOK", "litsOK", "sitesOK", "wellParen", "scope")}}
         # A — structure
-        r["struct_ok"] = "sexp" in impl and impl["sexp"] == o["build"]
+        r["struct_ok"] = "sexp" in impl and impl["sexp"] == o["build"] and bool(o.get("sitesOK", True))
+        if impl.get("err") == "overflow":
+            r["overflow"] = True  # the property's domain excludes overflow (engine-defined): counted, not judged
         # B — engine grouping
         if "build_err" in impl:
             r["engine_ok"] = False
@@ -822,17 +1174,21 @@ def evaluate(cases: t.List[dict]) -> t.List[dict]:
         elif not o["fnsOK"]:
             eng = {"err": "function"}
             r["engine_ok"] = impl.get("err") == "function"
+        elif not o.get("litsOK", True):
+            eng = {"err": "binder"}  # a literal whose text is not a literal to the engine (a bare `inf`): an unknown column
+            r["engine_ok"] = impl.get("err") == "binder"
         else:
             eng = run_engine(c, o["engine"])
             if "err" in eng or "err" in impl:
                 r["engine_ok"] = eng.get("err") is not None and eng.get("err") == impl.get("err")
             else:
-                r["engine_ok"] = eng["rows"] == impl["rows"]
+                r["engine_ok"] = rows_eq(eng["rows"], impl["rows"], 1e-12)
         r["engine"] = eng
         # S — meaning
-        r["spec_ok"] = "rows" in impl and impl["rows"] == spec and not impl.get("nondeterministic")
+        tol = REL_TOL if computes(c["e"]) else 0.0
+        r["spec_ok"] = "rows" in impl and rows_eq(impl["rows"], spec, tol) and not impl.get("nondeterministic")
         # in scope the Lean evaluation of the engine tree is the implementation's value as well
-        r["model_ok"] = bool(o["scope"]) or ("rows" in impl and impl["rows"] == model)
+        r["model_ok"] = bool(o["scope"]) or ("rows" in impl and rows_eq(impl["rows"], model, tol))
         r["spec"] = spec
         r["mirror_ok"] = py_spec(c) == spec
         res.append(r)
@@ -844,7 +1200,7 @@ def first_diff(r: dict) -> t.Optional[dict]:
     if "rows" not in impl:
         return {"row": None, "implementation": impl.get("err_text") or impl.get("build_err"), "specification": "a value for every row"}
     for k, v in r["spec"].items():
-        if impl["rows"].get(k, "<missing>") != v:
+        if not val_eq(impl["rows"].get(k, "<missing>"), v, REL_TOL if computes(r["case"]["e"]) else 0.0):
             return {"row": dict(zip(r["case"]["cols"], json.loads(k))), "implementation": impl["rows"].get(k, "<missing>"), "specification": v}
     return None
 
@@ -877,14 +1233,69 @@ def _not3(a: t.Any) -> t.Any:
     return (not a) if isinstance(a, bool) else None
 
 
-def _same_type(a: t.Any, b: t.Any) -> bool:
-    return a is not None and b is not None and type(a) is type(b)
+# Values of the mirror: None, bool, int (BIGINT), str, and DOUBLE — a `Fraction` in the exact mode (the exact decimal,
+# as in Lean), a `float` in the IEEE modes; the specials (nan, ±inf) are floats in every mode.
+# Modes: "exact" is the specification; "ieee" evaluates like an engine does; "up" / "down" are "ieee" with every
+# arithmetic result moved one ulp away — a tree whose observable result is the same in all four does not depend on rounding.
+
+
+def _is_int(x: t.Any) -> bool:
+    return isinstance(x, int) and not isinstance(x, bool)
+
+
+def _is_dbl(x: t.Any) -> bool:
+    return isinstance(x, (Fraction, float))
+
+
+def _special(x: t.Any) -> bool:
+    return isinstance(x, float) and (math.isnan(x) or math.isinf(x))
+
+
+def _dbl(v: float, mode: str) -> t.Any:
+    """a Python float (literal or column value) as a value of the mirror"""
+    if math.isnan(v) or math.isinf(v):
+        return v
+    return frac_of(v) if mode == "exact" else float(v)
+
+
+def _lit_val(v: t.Any, mode: str) -> t.Any:
+    return _dbl(v, mode) if isinstance(v, float) else v
+
+
+def _round(r: t.Any, mode: str) -> t.Any:
+    if mode in ("up", "down") and isinstance(r, float) and r != 0 and not _special(r):
+        return math.nextafter(r, math.inf if mode == "up" else -math.inf)
+    return r
+
+
+def _num_lt(a: t.Any, b: t.Any) -> bool:
+    """the total order of Spark and DuckDB: -inf < finite < +inf < NaN, NaN = NaN"""
+    an = isinstance(a, float) and math.isnan(a)
+    bn = isinstance(b, float) and math.isnan(b)
+    if an:
+        return False
+    if bn:
+        return True
+    return a < b
+
+
+def _lt(a: t.Any, b: t.Any) -> t.Optional[bool]:
+    if a is None or b is None:
+        return None
+    if isinstance(a, bool) or isinstance(b, bool):
+        return ((not a) and b) if isinstance(a, bool) and isinstance(b, bool) else None
+    if isinstance(a, str) or isinstance(b, str):
+        return (a < b) if isinstance(a, str) and isinstance(b, str) else None
+    if (_is_int(a) or _is_dbl(a)) and (_is_int(b) or _is_dbl(b)):
+        return _num_lt(a, b)
+    return None
 
 
 def _cmp(op: str, a: t.Any, b: t.Any) -> t.Any:
-    if not _same_type(a, b):
+    lt, gt = _lt(a, b), _lt(b, a)
+    if lt is None or gt is None:
         return None
-    return {"eq": a == b, "ne": a != b, "lt": a < b, "le": a <= b, "gt": a > b, "ge": a >= b}[op]
+    return {"eq": not lt and not gt, "ne": lt or gt, "lt": lt, "le": not gt, "gt": gt, "ge": not lt}[op]
 
 
 def _tmod(a: int, b: int) -> int:
@@ -892,16 +1303,26 @@ def _tmod(a: int, b: int) -> int:
     return -r if a < 0 else r
 
 
-def _arith(op: str, a: t.Any, b: t.Any) -> t.Any:
-    if isinstance(a, bool) or isinstance(b, bool) or not isinstance(a, int) or not isinstance(b, int):
+def _arith(op: str, a: t.Any, b: t.Any, mode: str = "exact") -> t.Any:
+    if _is_int(a) and _is_int(b):
+        if op == "add":
+            return a + b
+        if op == "sub":
+            return a - b
+        if op == "mul":
+            return a * b
+        return None if b == 0 else _tmod(a, b)
+    if op == "mod" or not ((_is_int(a) or _is_dbl(a)) and (_is_int(b) or _is_dbl(b))):
         return None
-    if op == "add":
-        return a + b
-    if op == "sub":
-        return a - b
-    if op == "mul":
-        return a * b
-    return None if b == 0 else _tmod(a, b)
+    if mode == "exact" and not (_special(a) or _special(b)):
+        x, y = Fraction(a), Fraction(b)
+    else:
+        x, y = float(a), float(b)
+    try:
+        r = x + y if op == "add" else x - y if op == "sub" else x * y
+    except OverflowError:
+        r = math.inf
+    return _round(r, mode)
 
 
 def _like(pat: str, sv: str) -> bool:
@@ -912,29 +1333,34 @@ def _like(pat: str, sv: str) -> bool:
     return bool(sv) and (pat[0] == "_" or pat[0] == sv[0]) and _like(pat[1:], sv[1:])
 
 
-def py_denote(env: t.Dict[str, t.Any], e: t.Any) -> t.Any:
+def _eq_true(a: t.Any, b: t.Any) -> bool:
+    return _cmp("eq", a, b) is True
+
+
+def py_denote(env: t.Dict[str, t.Any], e: t.Any, mode: str = "exact") -> t.Any:
     c = ctor(e)
     f = fields(e)
-    D = lambda x: py_denote(env, x)  # noqa
+    D = lambda x: py_denote(env, x, mode)  # noqa
+    L = lambda v: _lit_val(v, mode)  # noqa
     if c == "col":
         return env.get(f["n"])
     if c == "lit":
-        return f["v"]
+        return L(f["v"])
     if c == "arith":
-        return _arith(f["op"], D(f["a"]), D(f["b"]))
+        return _arith(f["op"], D(f["a"]), D(f["b"]), mode)
     if c == "arithL":
-        return _arith(f["op"], f["v"], D(f["b"]))
+        return _arith(f["op"], L(f["v"]), D(f["b"]), mode)
     if c == "cmp":
         return _cmp(f["op"], D(f["a"]), D(f["b"]))
     if c == "cmpL":
-        return _cmp(f["op"], f["v"], D(f["b"]))
+        return _cmp(f["op"], L(f["v"]), D(f["b"]))
     if c == "logic":
         return (_and3 if f["op"] == "and" else _or3)(*[x if isinstance(x, bool) else None for x in (D(f["a"]), D(f["b"]))])
     if c == "logicL":
         return (_and3 if f["op"] == "and" else _or3)(*[x if isinstance(x, bool) else None for x in (f["v"], D(f["b"]))])
     if c == "neg":
         v = D(f["a"])
-        return -v if isinstance(v, int) and not isinstance(v, bool) else None
+        return -v if (_is_int(v) or _is_dbl(v)) else None
     if c == "not":
         return _not3(D(f["a"]))
     if c == "isNull":
@@ -943,14 +1369,17 @@ def py_denote(env: t.Dict[str, t.Any], e: t.Any) -> t.Any:
         return D(f["a"]) is not None
     if c == "eqNullSafe":
         a, b = D(f["a"]), D(f["b"])
-        return (a is None and b is None) or (_same_type(a, b) and a == b)
+        if a is None or b is None:
+            return a is None and b is None
+        return _eq_true(a, b)
     if c == "isin":
         v = D(f["a"])
         if v is None:
             return None
-        if any(_same_type(v, x) and v == x for x in f["vs"]):
+        vs = [L(x) for x in f["vs"]]
+        if any(_eq_true(v, x) for x in vs):
             return True
-        return None if any(x is None for x in f["vs"]) else False
+        return None if any(x is None for x in vs) else False
     if c == "between":
         a = D(f["a"])
         return _and3(_cmp("ge", a, D(f["lo"])), _cmp("le", a, D(f["hi"])))
@@ -964,7 +1393,7 @@ def py_denote(env: t.Dict[str, t.Any], e: t.Any) -> t.Any:
         return {"startswith": a.startswith(b), "endswith": a.endswith(b), "rlike": b in a}[f["f"]]
     if c == "substr":
         a, st, ln = D(f["a"]), D(f["st"]), D(f["len"])
-        if not isinstance(a, str) or isinstance(st, bool) or isinstance(ln, bool) or not isinstance(st, int) or not isinstance(ln, int):
+        if not isinstance(a, str) or not _is_int(st) or not _is_int(ln):
             return None
         return a[max(st - 1, 0) :][: max(ln, 0)]
     if c == "when":
@@ -976,19 +1405,70 @@ def py_denote(env: t.Dict[str, t.Any], e: t.Any) -> t.Any:
     if c == "cast":
         v = D(f["a"])
         if f["ty"] == "string":
-            return None if v is None else ("true" if v is True else "false" if v is False else str(v))
-        return None if v is None or isinstance(v, str) else int(v)
+            return None if v is None or _is_dbl(v) else ("true" if v is True else "false" if v is False else str(v))
+        if f["ty"] == "double":
+            if _is_int(v):
+                return Fraction(v) if mode == "exact" else float(v)
+            return v if _is_dbl(v) else None
+        return None if v is None or isinstance(v, str) or _is_dbl(v) else int(v)
     if c == "alias":
         return D(f["a"])
     raise ValueError(c)
 
 
+def enc(v: t.Any) -> t.Any:
+    """a value of the mirror in the driver's output encoding (exact decimals as {"d": [m, e]})"""
+    if isinstance(v, Fraction):
+        return {"d": dec_pair(v)}
+    if isinstance(v, float):
+        if math.isnan(v):
+            return {"d": "nan"}
+        if math.isinf(v):
+            return {"d": "-inf" if v < 0 else "inf"}
+        return {"f": v}
+    return plain(v)
+
+
+def envs_of(cols: t.List[str], mode: str) -> t.Iterator[t.Tuple[t.Tuple[t.Any, ...], t.Dict[str, t.Any]]]:
+    for r in itertools.product(*[POOL[COLS[c]] for c in cols]):
+        yield r, {c: _lit_val(v, mode) for c, v in zip(cols, r)}
+
+
 def py_spec(case: dict) -> t.Dict[str, t.Any]:
     cols = case["cols"]
     out = {}
-    for r in itertools.product(*[POOL[COLS[c]] for c in cols]):
-        out[row_key(list(r))] = plain(py_denote(dict(zip(cols, r)), case["e"]))
+    for r, env in envs_of(cols, "exact"):
+        out[row_key(list(r))] = enc(py_denote(env, case["e"], "exact"))
     return out
+
+
+_STABLE: t.Dict[str, bool] = {}
+
+
+def stable(e: t.Any) -> bool:
+    """the observable result does not depend on IEEE rounding: the exact-decimal evaluation (the specification), the
+    IEEE evaluation and the IEEE evaluation with every arithmetic result moved one ulp up / down agree on every row
+    (non-DOUBLE results exactly, DOUBLE results within REL_TOL / 10).  Trees without a DOUBLE are always stable."""
+    if not has_dbl(e):
+        return True
+    key = json.dumps(e, sort_keys=True, default=repr)
+    if key in _STABLE:
+        return _STABLE[key]
+    cols = sorted(cols_of(e), key=list(COLS).index)
+    ok = True
+    try:
+        rows = {m: [py_denote(env, e, m) for _, env in envs_of(cols, m)] for m in ("exact", "ieee", "up", "down")}
+        for i, ex in enumerate(rows["exact"]):
+            for m in ("ieee", "up", "down"):
+                if not val_eq(enc(ex), enc(rows[m][i]), REL_TOL / 10):
+                    ok = False
+                    break
+            if not ok:
+                break
+    except (OverflowError, ValueError, ZeroDivisionError):
+        ok = False
+    _STABLE[key] = ok
+    return ok
 
 
 def _core(e: t.Any) -> t.Any:
@@ -1018,6 +1498,8 @@ def py_in_scope(e: t.Any) -> bool:
         return False
     if c == "strFn" and f["f"] == "endswith":
         return False
+    if any(isinstance(v, float) and math.isinf(v) for v in ([f["v"]] if c in ("lit", "arithL", "cmpL") else f["vs"] if c == "isin" else [])):
+        return False
     return all(py_in_scope(ch) for _, ch in children(e))
 
 
@@ -1033,7 +1515,7 @@ def evaluate_without_model(cases: t.List[dict]) -> t.List[dict]:
         except Exception as ex:  # noqa
             impl = {"build_err": f"{type(ex).__name__}: {str(ex)[:200]}"}
         spec = py_spec(c)
-        ok = "rows" in impl and impl["rows"] == spec
+        ok = "rows" in impl and rows_eq(impl["rows"], spec, REL_TOL if computes(c["e"]) else 0.0)
         res.append(
             {
                 "case": c,
@@ -1046,6 +1528,7 @@ def evaluate_without_model(cases: t.List[dict]) -> t.List[dict]:
                 "engine": {},
                 "driver": {"build": None, "engine": None, "fnsOK": None, "wellParen": None, "scope": []},
                 "no_model": True,
+                "overflow": impl.get("err") == "overflow",
             }
         )
     return res
@@ -1070,6 +1553,8 @@ def classify(r: dict, known: t.Dict[str, dict]) -> str:
     """ok | known | violation"""
     if r["struct_ok"] and r["engine_ok"] and r["spec_ok"] and r["model_ok"]:
         return "ok"
+    if r.get("overflow") and r["struct_ok"]:
+        return "ok"  # outside the property's domain (overflow is engine-defined); the structure was still compared
     sc = r["driver"]["scope"]
     if (not r["spec_ok"]) and r["struct_ok"] and r["engine_ok"] and sc and all(h in known for h in sc):
         return "known"
@@ -1104,6 +1589,28 @@ def paths(e: t.Any, pre: t.Optional[t.List[str]] = None) -> t.List[t.Tuple[t.Lis
     return out
 
 
+def fix_raw(e: t.Any, parent: t.Optional[str] = None, key: t.Optional[str] = None, pf: t.Optional[dict] = None) -> t.Any:
+    """after moving sub-trees around: a plain Python value keeps its `_raw` mark only where one can stand"""
+    if isinstance(e, str):
+        return e
+    c = ctor(e)
+    if c == "lit":
+        if e.get("_raw"):
+            try:
+                if parent is None:
+                    raise ValueError
+                site_of(parent, key or "", pf or {})
+            except ValueError:
+                return {k: v for k, v in e.items() if k != "_raw"}
+        return e
+    out = dict(e)
+    f = dict(e[c])
+    for k, ch in children(e):
+        f[k] = fix_raw(ch, c, k, e[c])
+    out[c] = f
+    return out
+
+
 def shrink_candidates(e: t.Any) -> t.List[t.Any]:
     cands = []
     for path, sub in paths(e):
@@ -1123,8 +1630,8 @@ def shrink_candidates(e: t.Any) -> t.List[t.Any]:
                 cands.append(replace_at(e, path, leaf))
     seen = set()
     out = []
-    for c in cands:
-        k = json.dumps(c, sort_keys=True)
+    for c in map(fix_raw, cands):
+        k = json.dumps(c, sort_keys=True, default=repr)
         if k not in seen and size(c) < size(e) and valid(c):
             seen.add(k)
             out.append(c)
@@ -1157,7 +1664,7 @@ def replay_dict(r: dict, ctx: Ctx) -> dict:
         if r["struct_ok"] and r["engine_ok"]
         else "implementation and model disagree (structure of Column.expression or engine grouping)",
         "program": show(c["e"]),
-        "case": {"e": c["e"], "cols": c["cols"]},
+        "case": {"e": enc_tree(c["e"]), "cols": c["cols"]},
         "sql": r["impl"].get("sql"),
         "first_difference": first_diff(r),
         "implementation_error": r["impl"].get("err_text") or r["impl"].get("build_err"),
@@ -1239,6 +1746,99 @@ def check_table_live(ctx: Ctx) -> int:
     return n
 
 
+def check_lit_live(ctx: Ctx) -> int:
+    """every branch of the regenerated literal chains (Gen.ColumnLit) against the running code, on a value that takes it"""
+    import datetime
+
+    import gen_c05
+    from sqlglot import expressions as exp
+    from sqlframe.base.column import Column
+    from sqlframe.base.types import Row
+    from sqlframe.duckdb import functions as F
+
+    session()
+    d = gen_c05.extract_lit(vlib.REPO)
+    samples = {
+        "isRow": Row(a=1),
+        "isListOrSet": [1, 2],
+        "isTuple": (1, 2),
+        "isDict": {"a": 1},
+        "isFloatNan": float("nan"),
+        "isFloatInf": float("-inf"),
+        "isDatetime": datetime.datetime(2020, 1, 2, 3, 4, 5),
+        "isStr": "a'b",
+    }
+    bad: t.List[str] = []
+    n = 0
+
+    def agrees(action: t.Tuple[str, ...], value: t.Any, node: t.Any) -> t.Optional[str]:
+        kind = action[0]
+        klass = {"structOfRow": exp.Struct, "arrayOf": exp.Array, "tupleOf": exp.Tuple, "varMapOf": exp.VarMap, "datetimeCast": exp.Cast}.get(kind)
+        if klass is not None:
+            return None if type(node) is klass else f"built {type(node).__name__}, the chain says {kind}"
+        if kind == "castStrConst":
+            ok = type(node) is exp.Cast and isinstance(node.this, exp.Literal) and node.this.is_string and node.this.this == action[1] and node.args["to"].sql().lower() == action[2]
+            return None if ok else f"built {node.sql()!r}, the chain says CAST({action[1]!r} AS {action[2]})"
+        if kind == "castStrBySign":
+            want = action[1] if value > 0 else action[2]
+            ok = type(node) is exp.Cast and isinstance(node.this, exp.Literal) and node.this.is_string and node.this.this == want and node.args["to"].sql().lower() == action[3]
+            return None if ok else f"built {node.sql()!r}, the chain says CAST({want!r} AS {action[3]})"
+        if kind == "convert":
+            return None if node == exp.convert(value) else f"built {node.sql()!r}, exp.convert gives {exp.convert(value).sql()!r}"
+        if kind in ("stringOfValue", "stringOfStr"):
+            ok = isinstance(node, exp.Literal) and node.is_string and node.this == str(value)
+            return None if ok else f"built {node.sql()!r}, the chain says the string literal {str(value)!r}"
+        if kind == "columnInit":
+            return None if node == Column(value).expression.unalias() else f"built {node.sql()!r}, Column(value) gives {Column(value).expression.sql()!r}"
+        return f"unknown action {kind}"
+
+    def walk(chain: t.List[t.Tuple[str, t.Tuple[str, ...]]], fall: t.Tuple[str, ...], fn: t.Callable[[t.Any], t.Any], what: str) -> None:
+        nonlocal n
+        seen: t.Set[str] = set()
+        for guard, action in chain:
+            if guard in seen:
+                continue
+            seen.add(guard)
+            for v in [samples[guard]] + ([float("inf")] if guard == "isFloatInf" else []):
+                n += 1
+                try:
+                    msg = agrees(action, v, fn(v))
+                except Exception as ex:  # noqa
+                    msg = f"raised {type(ex).__name__}: {str(ex)[:120]}"
+                if msg:
+                    bad.append(f"{what}({guard} value {v!r}): {msg}")
+        for v in (None, True, 7, -3, 1.5, 2.5e-07, "a'b"):
+            taken = next((a for g, a in chain if (g == "isStr" and isinstance(v, str)) or (g == "isFloatNan" and isinstance(v, float) and math.isnan(v))), fall)
+            n += 1
+            try:
+                msg = agrees(taken, v, fn(v))
+            except Exception as ex:  # noqa
+                msg = f"raised {type(ex).__name__}: {str(ex)[:120]}"
+            if msg:
+                bad.append(f"{what}({v!r}): {msg}")
+
+    walk(d["litChain"], d["litFallthrough"], lambda v: Column._lit(v).expression, "Column._lit")
+    walk(d["litFnChain"], d["litFnFallthrough"], lambda v: F.lit(v).expression.unalias(), "functions.lit")
+    # Column.__init__: a Column is taken as it is, a non-str value goes through _lit, a str is parsed as SQL text
+    c = F.col("a")
+    n += 3
+    if Column(c).expression is not c.expression:
+        bad.append("Column(Column): the expression is not taken as it is")
+    if Column(1.5).expression != Column._lit(1.5).expression:
+        bad.append("Column(1.5) differs from Column._lit(1.5)")
+    if isinstance(Column("a + 1").expression, exp.Literal):
+        bad.append("Column('a + 1') is a literal, the constructor's dispatch says it is parsed")
+    # the decorator: an alias exactly on results that are functions
+    n += 2
+    if isinstance(F.lit(float("nan")).expression, exp.Alias) != (d["litFnHasMeta"] and d["metaAliasesFunc"]):
+        bad.append("lit(nan): automatic alias present != the translator's litFnHasMeta && metaAliasesFunc")
+    if isinstance(F.lit(1.5).expression, exp.Alias):
+        bad.append("lit(1.5) carries an alias")
+    for b in bad:
+        ctx.broken.append("Gen.ColumnLit disagrees with the running code: " + b)
+    return n
+
+
 # ------------------------------------------------------------------------------------------------
 # the check
 # ------------------------------------------------------------------------------------------------
@@ -1251,12 +1851,12 @@ def corpus_cases() -> t.List[dict]:
         for fn in sorted(os.listdir(d)):
             if fn.endswith(".json"):
                 c = json.load(open(os.path.join(d, fn)))
-                out.append({"e": c["e"], "origin": "corpus:" + fn})
+                out.append({"e": dec_tree(c["e"]), "origin": "corpus:" + fn})
     return out
 
 
 def cases_for(ctx: Ctx) -> t.List[dict]:
-    cases = corpus_cases() + base_cases()
+    cases = corpus_cases() + [c for c in base_cases() if valid(c["e"])] + literal_cases(ctx.rng, ctx.thorough)
     n = 6000 if ctx.thorough else 450
     for _ in range(n):
         c = gen_case(ctx.rng)
@@ -1276,6 +1876,11 @@ def run(ctx: Ctx) -> None:
         n_table = 0
         if not any("untranslatable" in b for b in ctx.broken):
             ctx.broken.append(f"Gen.ColumnOps cannot be compared with the running code: {type(ex).__name__}: {str(ex)[:200]}")
+    try:
+        n_table += check_lit_live(ctx)
+    except Exception as ex:  # noqa
+        if not any("untranslatable" in b for b in ctx.broken):
+            ctx.broken.append(f"Gen.ColumnLit cannot be compared with the running code: {type(ex).__name__}: {str(ex)[:200]}")
     cases = cases_for(ctx)
     no_model = False
     try:
@@ -1323,7 +1928,7 @@ def run(ctx: Ctx) -> None:
         w = e.get("witness")
         if w and res and not no_model:
             try:
-                r = evaluate([{"e": w["e"]}])[0]
+                r = evaluate([{"e": dec_tree(w["e"])}])[0]
             except Exception as ex:  # noqa
                 log(f"witness of {h} cannot be evaluated: {ex}")
                 continue
@@ -1335,7 +1940,7 @@ def run(ctx: Ctx) -> None:
     n_mirror = sum(1 for r in res if not r.get("mirror_ok", True))
     if n_mirror:
         ctx.broken.append(f"the Python mirror of `denote` (fallback specification) disagrees with the Lean specification on {n_mirror} cases")
-    n_model_mismatch = sum(1 for r in res if not (r["struct_ok"] and r["engine_ok"] and r["model_ok"]))
+    n_model_mismatch = sum(1 for r in res if not (r["struct_ok"] and (r.get("overflow") or (r["engine_ok"] and r["model_ok"]))))
     if n_model_mismatch:
         ctx.broken.append(f"correspondence (implementation vs Impl/C05Column.lean + C05Engine.lean): {n_model_mismatch} of {len(res)} cases differ")
 
@@ -1370,10 +1975,18 @@ def run(ctx: Ctx) -> None:
             "evaluations": len(res),
             "row_evaluations": sum(len(r["spec"]) for r in res),
             "distinct_nontrivial": len(nontrivial),
-            "rule": "corpus (defect witnesses), then every operator/method of the alphabet in each operand form, then seeded random typed "
-            "trees of depth ≤ 4 over 2–4 of the columns x,y:int s,u:str p,q:bool; every tree is evaluated on the full cartesian product of the "
-            "value pools {NULL,0,-1,2}/{NULL,'','a'}/{NULL,TRUE,FALSE} of its columns; non-trivial = distinct trees with more than two nodes "
-            "whose implementation result is not constant over the rows",
+            "rule": "corpus (defect witnesses), then every operator/method of the alphabet in each operand form, then the literal family "
+            "(every kind of plain Python value — floats in every spelling of repr incl. random digits/exponents, small and large ints, strings "
+            "with quotes/backslashes/non-ASCII, bools, None — at every entry point: lit(), right operand, reflected left operand, eqNullSafe, "
+            "isin values, between bounds, when/otherwise values, startswith), then seeded random typed trees of depth ≤ 4 over 2–4 of the columns "
+            "x,y:int s,u:str p,q:bool d,f:double; every tree is evaluated on the full cartesian product of the value pools "
+            "{NULL,0,-1,2}/{NULL,'','a'}/{NULL,TRUE,FALSE}/{NULL,0.0,-2.0,4.0,0.5} of its columns; trees with a DOUBLE are kept only when their "
+            "result is independent of IEEE rounding (`stable`); non-trivial = distinct trees with more than two nodes whose implementation result "
+            "is not constant over the rows",
+            "double_tolerance": f"relative {REL_TOL} between an implementation DOUBLE and the specification's exact decimal (no absolute slack)",
+            "cases_with_double": sum(1 for r in res if has_dbl(r["case"]["e"])),
+            "literal_family_cases": sum(1 for r in res if r["case"].get("origin") == "literal"),
+            "overflow_cases_not_judged": sum(1 for r in res if r.get("overflow")),
             "traces_validated_against_impl": sum(1 for r in res if r["struct_ok"] and r["engine_ok"] and r["model_ok"]),
             "structure_agree": n_struct,
             "engine_grouping_agree": n_engine,
@@ -1395,6 +2008,8 @@ def run(ctx: Ctx) -> None:
         "DuckDB's grammar groups operators by the level table of Impl/C05Engine.lean (OR<AND<NOT<IS<comparison<BETWEEN/IN/LIKE<+-<*/%<unary minus; comparison, IS, BETWEEN/IN/LIKE levels non-associative), validated per case by the same comparison",
         "scalar operator meanings of Impl/C05Column.lean (3VL, comparisons, %, LIKE without escape, metacharacter-free REGEXP_MATCHES, SUBSTRING with start ≥ 1, CAST to TEXT/BIGINT) are DuckDB's and Spark's on the value pool (validated against DuckDB per row; division, pow, getItem/getField, cast string→int are outside the modelled alphabet)",
         "Python evaluates `v < col` as `col > v` (reflected comparison), `v + col` as `col.__radd__(v)`",
+        "Python's repr(float) (shortest round-trip digits; exponent form iff the decimal point position is ≤ -4 or > 16) and str(int) are as written in Impl/C05Lit.lean (validated: the model's text of every number literal equals the text of the real node); DuckDB's lexer reads such a text as the decimal it spells (validated per value by the literal family)",
+        f"DOUBLE arithmetic is exact decimal arithmetic in the model and the specification; the engine's IEEE results are compared within relative {REL_TOL}, on trees whose result is the same under exact, IEEE, and IEEE±1ulp evaluation (rounding is outside the property); NaN/±inf order as in Spark and DuckDB (NaN = NaN, NaN greatest)",
     ]
 
 
@@ -1411,11 +2026,12 @@ def replay(ctx: Ctx, rp: dict) -> None:
     if not ok:
         log(out[-1500:])
     try:
+        c = dict(c, e=dec_tree(c["e"]))
         check_table_live(ctx)
         r = evaluate([{"e": c["e"]}])[0]
     except Exception as ex:  # noqa  (no model for this tree: fall back to the Python mirror of the specification)
         log(f"model unavailable ({type(ex).__name__}: {str(ex)[:200]}); replaying against the Python mirror of `denote`")
-        rs = evaluate_without_model([{"e": c["e"]}])
+        rs = evaluate_without_model([{"e": dec_tree(c["e"])}])
         if not rs:
             print("the input is outside the pattern scope; it cannot be judged without the model")
             return
